@@ -142,6 +142,10 @@ theorem setup_example : Setup [['d']] ['H'] := ⟨by decide, by decide⟩
 theorem confined_lookupGet (d : List Seg) (H : Seg) (hs : Setup d H) (v : Str) (p : NPath)
     (h : lookupGet d v = some p) : within (dataDir d) p := by
   unfold lookupGet at h
+  by_cases he : hasLookupExt v = true
+  case neg => simp [he] at h
+  simp only [he, if_true] at h
+  unfold lookupGetOld at h
   split at h
   · rename_i hr
     simp at h; subst h
@@ -206,7 +210,8 @@ theorem confined_scrollResults (d : List Seg) (H : Seg) (hs : Setup d H) (known 
 
 example : lookupGet [['d']] "a.csv".toList = some ⟨true, [['d'], "lookups".toList, "a.csv".toList]⟩ := by decide
 example : lookupGet [['d']] "../a.csv".toList = none := by decide
-example : lookupGet [['d']] "..".toList = some ⟨true, [['d']]⟩ := by decide
+example : lookupGet [['d']] "..".toList = none ∧ lookupGetOld [['d']] "..".toList = some ⟨true, [['d']]⟩ := by decide
+example : lookupGet [['d']] "7".toList = none ∧ lookupGet [['d']] "A.CSV.gz".toList = some ⟨true, [['d'], "lookups".toList, "A.CSV.gz".toList]⟩ := by decide
 
 /-! ### builders repaired by the fix: commits — the old definitions -/
 
